@@ -273,7 +273,22 @@ class Parser:
             self.next(); self.expect('(')
             pre = None
             save = self.p
-            d = self.try_decl()            # C++17 `if (init; cond)`
+            ty = self.try_type()           # `if (T x = e)`: declaration as condition, the condition is x
+            if ty is not None and self.peek()[0] == 'id' and self.at('=', 1):
+                name = self.next()[1]; self.next(); e0 = self.expr()
+                if self.at(')'):
+                    self.next()
+                    a = self.sub()
+                    b = []
+                    if self.at('else'):
+                        self.next(); b = self.sub()
+                    return ('block', [('decl', ty, name, e0), ('if', ('id', name), a, b)])
+            self.p = save
+            d = None
+            try:
+                d = self.try_decl()        # C++17 `if (init; cond)`
+            except Unsupported:
+                self.p = save
             if d is not None:
                 pre = d
             else:
@@ -580,6 +595,7 @@ class Tr:
         # calls that READ AND WRITE state variables (explicit state passing):  key -> dict(term='f {$a} {$b} {0}', updates=['$a','$b'],
         # ret=type|None, args=[types]).  key = full call text for value calls ('GetAcknowledgement()'), callee for statements.
         self.calls_st = dict(t.get('calls_st', {}))
+        self.appends = dict(t.get('appends', {}))     # 'v.push_back' -> list-typed local v :  v := v ++ [argument]
         self.emits = dict(t.get('emits', {}))        # call key (regex) -> (event list state variable, event term)
         self.fuel = t.get('fuel')                    # gallina nat term bounding every while loop
         self.opaque_ok = t.get('opaque', True)
@@ -684,6 +700,14 @@ class Tr:
             ty = a[1] if a[1] == b[1] else ('u64' if {a[1], b[1]} == {'Z', 'u64'} else None)
             if ty is None: raise Unsupported('ternary branches of types %s / %s' % (a[1], b[1]))
             return ('if %s then %s else %s' % (c, self.coerce(a, ty), self.coerce(b, ty)), ty)
+        if kind == 'index':
+            a = self.tx(e[1], env)
+            td = self.types.get(a[1], {})
+            if td.get('elem') and td.get('default') is not None:
+                i = self.coerce(self.tx(e[2], env), 'Z')
+                self.notes.append('v[i] on a vector is nth (Z.to_nat i) v <default>: exact for 0 <= i < size, anything else is undefined behaviour in C++')
+                return ('nth (Z.to_nat %s) %s %s' % (P(i), P(a[0]), P(td['default'])), td['elem'])
+            raise Unsupported('index into ' + a[1])
         if kind == 'cast':
             a = self.tx(e[3], env)
             ty = e[2]
@@ -730,6 +754,9 @@ class Tr:
             if num(a[1]) and eb[0] == 'num' and 0 <= int(eb[1]) < 64:
                 t = '%s * %d' % (P(a[0]), 2 ** int(eb[1]))
                 return ('xl_u64 %s' % P(t), 'u64') if a[1] == 'u64' else (t, 'Z')
+        if op == '%' and 'u64' in (a[1], b[1]) and num(a[1]) and num(b[1]):
+            self.notes.append('unsigned %: Z.modulo on non-negative values (the divisor is assumed non-zero, as C++ requires)')
+            return ('%s mod %s' % (P(self.coerce(a, 'u64')), P(self.coerce(b, 'u64'))), 'u64')
         if op in ('/', '%'):
             if a[1] == b[1] == 'Z' and self.intdiv:
                 return ('%s %s %s' % ('Z.quot' if op == '/' else 'Z.rem', P(a[0]), P(b[0])), 'Z')
@@ -774,6 +801,7 @@ class Tr:
             fk = key(e[1], None)
             if fk in self.setters: return self.setters[fk]
             if fk in self.emits: return self.emits[fk][0]
+            if fk in self.appends: return self.appends[fk]
         return None
 
     def targets_of(self, e, env):
@@ -1047,6 +1075,13 @@ class Tr:
             if fk in self.setters and len(e[2]) == 1:
                 n = self.setters[fk]
                 return self.let(n, env.vals[n][1], self.coerce(self.tx(e[2][0], env), env.vals[n][1]), env, R)
+            if fk in self.appends and len(e[2]) == 1:
+                n = self.appends[fk]
+                if n not in env.vals or env.vals[n][0] is None: raise Unsupported('append to an unknown or uninitialised list ' + n)
+                lt = env.vals[n][1]
+                et = self.types.get(lt, {}).get('elem')
+                if not et: raise Unsupported('append to %s, which is not of a list type' % n)
+                return self.let(n, lt, '%s ++ [%s]' % (P(env.vals[n][0]), self.coerce(self.tx(e[2][0], env), et)), env, R)
             if fk in self.calls_st and not self.calls_st[fk].get('ret'):
                 sp = self.calls_st[fk]
                 ats = sp.get('args', [])
@@ -1218,6 +1253,11 @@ def translate(target, src):
             body = body[m1.start():m1.end() + m2.start()]
             if body.count('{') != body.count('}'): raise Unsupported('region is not a balanced statement sequence')
             outputs = list(target.get('outputs', []))
+        # preprocessor conditionals: accepted only when they enclose nothing but comments / blank lines (then they are dropped)
+        def pp(m):
+            if m.group(1).strip(): raise Unsupported('preprocessor conditional that encloses code')
+            return '\n' * m.group(0).count('\n')
+        body = re.sub(r'^[ \t]*#[ \t]*if(?:n?def)?\b[^\n]*\n(.*?)^[ \t]*#[ \t]*endif\b[^\n]*$', pp, body, flags=re.S | re.M)
         stmts = Parser(body).body()
         env = Env()
         for cn, (g, t) in target.get('locals', {}).items():
@@ -1312,7 +1352,7 @@ def dummy(rcoq):
 
 def csafe(x):
     """text that is safe inside a Coq comment"""
-    return x.replace('*)', '* )').replace('(*', '( *').replace('"', "'")
+    return ' '.join(x.replace('*)', '* )').replace('(*', '( *').replace('"', "'").split())
 
 
 def emit_definition(target, res):
